@@ -34,12 +34,12 @@ def one(sid):
         r = subprocess.run(f"git apply {d / 'patch.diff'}", shell=True, cwd=wt, capture_output=True, text=True)
         if r.returncode != 0:
             return sid, prop, "patch-does-not-apply", 0
-        env = dict(os.environ, VERIF_REPO=str(wt), VERIF_SCRATCH_OUT=f"/tmp/verif_seed_out/{sid}")
+        env = dict(os.environ, VERIF_REPO=str(wt), VERIF_SCRATCH_OUT=f"/tmp/verif_seed_out/{sid}", VERIF_STOP_EARLY="1")
         t0 = time.time()
         r = subprocess.run(["nice", "-n", "10", "./check", prop, "quick"], cwd=VERIF, env=env, capture_output=True, text=True, timeout=7200)
         viol = [ln for ln in r.stdout.splitlines() if ln.startswith("VIOLATION")]
         detail = [ln.strip() for ln in r.stdout.splitlines() if ln.strip().startswith("class=")][:2]
-        res = "detected" if (r.returncode == 1 and viol) else f"MISSED(exit {r.returncode})"
+        res = "detected" if (viol and r.returncode in (1, 2)) else f"MISSED(exit {r.returncode})"
         meta["regression"] = {"check": prop, "result": res, "detail": [x[:300] for x in detail], "wall_s": round(time.time() - t0, 1), "how": "scratch worktree of /repo HEAD + patch, VERIF_REPO=<worktree> ./check <id> quick"}
         (d / "meta.json").write_text(json.dumps(meta, indent=1) + "\n")
         return sid, prop, res, round(time.time() - t0, 1)
